@@ -101,12 +101,29 @@ def generate(package="numeric", spec_dir="specs"):
     tables = {}
     for mod, (rel, specs) in load_modules(spec_dir).items():
         src = open(os.path.join(REPO, rel), encoding="utf-8").read()
+        texts = translate_module(C, mod, rel, src, specs, known, report, used_constants, by_key, tables)
+        if texts is not None:
+            outputs[mod] = (rel, texts)
+    return write_outputs(package, report, used_constants, outputs, by_key, tables)
+
+
+def translate_source(src, specs, rel="typhon/snippet.py", mod="Snippet", C=None):
+    """translate one module given as text (used by tools/py2lean/tests): returns (texts {"real","float"}, report)"""
+    report = {"refused": {}, "functions": {}, "notes": {}, "auto_helpers": {}}
+    texts = translate_module(C or load_constants(), mod, rel, src, specs, {}, report, {}, {}, {})
+    return texts, report
+
+
+def translate_module(C, mod, rel, src, specs, known, report, used_constants, by_key, tables):
+    """translate the functions `specs` names in the module text `src`; returns {"real": [defs], "float": [defs]}
+    (None when the module does not parse) and fills report / known / by_key / tables"""
+    if True:
         try:
             tree = ast.parse(src)
         except SyntaxError as e:
             for sp in specs:
                 report["refused"][f"{mod}.{sp.get('name', sp.get('table'))}"] = f"syntax error: {e}"
-            continue
+            return None
         normalize.annotate_literals(tree, src)
         module_name = rel[:-3].replace("/", ".")
         table = normalize.module_table(tree, module_name)
@@ -197,7 +214,10 @@ def generate(package="numeric", spec_dir="specs"):
                 texts[d].insert(0, py2lean.Translator.PRELUDE[d].rstrip("\n") + "\n")
         if cprelude:
             texts["float"].insert(0, py2lean.Translator.PRELUDE["complex_float"].rstrip("\n") + "\n")
-        outputs[mod] = (rel, texts)
+        return texts
+
+
+def write_outputs(package, report, used_constants, outputs, by_key, tables):
     # constants
     creal = ["import Mathlib.Data.Real.Basic", "", "/-! GENERATED by tools/py2lean/gen_all.py from typhon/constants.py — do not edit.",
              "Exact rational values of the doubles in `typhon.constants`. -/", "", "namespace C", ""]
